@@ -10,7 +10,9 @@ EXPL = ("R10.1 each sink-level merge/insert/send body moves its by-value entry i
         "per drained item, built from the closed key and the closed aggregate; R10.3 the tee feeds and flushes both branches on every "
         "path; R10.4 the worker handles Entry by exactly one merge and acknowledges a Flush only after flushing; R10.5 every spawned "
         "worker closure can return, and the disconnected outcome of the receive leads to Return through a final flush; R10.6 "
-        "merge-on-drop guards take and merge exactly once. Not decided: sums/histogram contents for arbitrary inputs, key hashing.")
+        "merge-on-drop guards take and merge exactly once; R10.8 (on the proc macro's own MIR) the generators of Merge/MergeRef impls "
+        "interpolate the same field identifier into `accum.#f` and `input.#f` and skip only key/ignored fields. Not decided: "
+        "sums/histogram contents for arbitrary inputs, key hashing.")
 AG = "metrique_aggregation"
 
 CONSUMERS = ("merge", "insert", "insert_direct", "append", "send", "add_value", "add_assign", "merge_ref", "insert_hashed_nocheck")
@@ -249,6 +251,89 @@ def run(ctx):
     for a in ws:
         senders = [f for v in a["variants"] for f in v["fields"] if "mpsc::Sender<" in f["ty"]]
         ctx.check(len(senders) == 1, "R10.4", a["def"] + "#single-channel", "", "entries and flush requests travel over %d channels: a flush could overtake earlier entries" % len(senders))
+    # ------------------------------------------------------------------ R10.8 generator of Merge / MergeRef impls (proc macro's own MIR)
+    MAC = "metrique_macro"
+    gens = []
+    for b in F.all_bodies(MAC):
+        if b.kind != "Closure" or "aggregate::generate_" not in b.path:
+            continue
+        lits = []
+        for c in b.calls():
+            if c.name in ("push_ident", "push_ident_spanned") and c.args:
+                k = op_const(c.args[-1]) or {}
+                s_ = k.get("str")
+                if s_ is None:
+                    l = op_local(c.args[-1])
+                    for kind, bb_, idx, node in b.defs().get(l, []) if l is not None else []:
+                        if kind == "assign" and node["k"] == "assign" and node["rv"]["k"] == "ref":
+                            for k2, b2, i2, n2 in b.defs().get(node["rv"]["place"]["l"], []):
+                                if k2 == "assign" and n2["k"] == "assign" and n2["rv"]["k"] == "use":
+                                    s_ = (op_const(n2["rv"]["op"]) or {}).get("str")
+                lits.append((c, s_))
+        if any(s_ == "accum" for _, s_ in lits) and any(s_ == "input" for _, s_ in lits):
+            gens.append((b, lits))
+    ctx.floor("R10.8", "merge-call generators in the aggregate macro", len(gens), 2)
+    for b, lits in gens:
+        dom = b.dominators()
+        pr = Prov(b)
+        order = sorted(b.calls(), key=lambda c: len(dom.get(c.bb, ())))
+
+        def next_interp(c):
+            # the first interpolated token (ToTokens::to_tokens of a non-literal) after call c; a nested token stream
+            # (`#entry_value`) is not a field identifier and is skipped
+            # follow the straight-line successor chain of the block (token pushes are sequential calls)
+            chain, cur, seenb = [], c.target, set()
+            while cur is not None and cur not in seenb:
+                seenb.add(cur)
+                t_ = b.term(cur)
+                if t_["k"] == "call":
+                    chain.append(CallSite(b, cur, t_))
+                    cur = t_.get("target")
+                elif t_["k"] in ("goto", "drop", "assert"):
+                    cur = t_["target"]
+                else:
+                    break
+            for x in chain:
+                if x.name in ("push_ident", "push_ident_spanned"):
+                    return None
+                if x.name == "to_tokens" and x.args:
+                    ty = x.self_ty or ""
+                    if "TokenStream" in ty:
+                        continue
+                    o = {y for y in pr.operand(x.args[0]) if y[0] in ("arg", "call", "const", "static")}
+                    return frozenset((y[0],) + tuple(y[1:]) for y in o)
+            return None
+        acc = [next_interp(c) for c, s_ in lits if s_ == "accum"]
+        inp = [next_interp(c) for c, s_ in lits if s_ == "input"]
+        acc = [a for a in acc if a]
+        inp = [a for a in inp if a]
+        ctx.check(bool(acc) and bool(inp) and all(i_ == acc[0] for i_ in inp) and all(a == acc[0] for a in acc), "R10.8", fnkey(b) + "#accumulator-and-input-same-field", loc(b),
+                  "the generated merge call pairs `accum.<%s>` with `input.<%s>`: a field of the input would be merged into another field of the aggregate" % (
+                      sorted(acc[0]) if acc else "?", [sorted(i_) for i_ in inp]),
+                  "accum.#f and input.#f interpolate the same field identifier %s" % (sorted(acc[0]) if acc else ""))
+    # the field filter of the generators: every field that is neither key nor ignored gets a merge call
+    filt = [b for b in F.all_bodies(MAC) if b.kind == "Closure" and "aggregate::generate_" in b.path and b.locals and b.locals[0]["ty"] == "bool" and not b.calls()]
+    nf = 0
+    for b in filt:
+        reads = set()
+        for i in b.live_blocks():
+            for s_ in b.stmts(i):
+                if s_["k"] == "assign":
+                    for o in ([s_["rv"].get("op")] if s_["rv"]["k"] in ("use", "unop") else [s_["rv"].get("a")] if s_["rv"]["k"] == "unop" else []):
+                        p_ = op_place(o or {})
+                        if p_:
+                            reads |= {e[2] for e in p_.get("p", []) if e[0] == "f"}
+            t = b.term(i)
+            if t["k"] == "switch":
+                p_ = op_place(t["discr"])
+                if p_:
+                    reads |= {e[2] for e in p_.get("p", []) if e[0] == "f"}
+        if reads & {"is_key", "is_ignored"}:
+            nf += 1
+            ctx.check(reads <= {"is_key", "is_ignored"}, "R10.8", fnkey(b) + "#only-key-and-ignored-fields-are-skipped", loc(b),
+                      "the generator skips fields on another criterion than key/ignored (%s): such a field would silently not be aggregated" % sorted(reads))
+    ctx.floor("R10.8", "field filters of the merge generators", nf, 2)
+
     # ------------------------------------------------------------------ R10.6 merge-on-drop guards
     guards = []
     for imp in F.impls_of("core::ops::drop::Drop"):
